@@ -98,6 +98,14 @@ class C10(CheckBase):
                 old = prev['context'].get(h)
                 was = old.get('ContextAssociation') if old else None
                 now = st.get('ContextAssociation')
+                if old is not None and was != 'Assoc' and now != 'Assoc' and old.get('UnbindingMdibVersion') is not None:
+                    # the state stopped being associated earlier: its unbinding stamp is the version / time of THAT change
+                    if (st.get('UnbindingMdibVersion'), st.get('BindingEndTime')) != \
+                            (old.get('UnbindingMdibVersion'), old.get('BindingEndTime')):
+                        problems.append(('C10.unbind', 'unbinding-stamp-rewritten',
+                                         f'v{v}: state {h} ({was}->{now}) was unbound at MdibVersion '
+                                         f'{old.get("UnbindingMdibVersion")}, now carries UnbindingMdibVersion='
+                                         f'{st.get("UnbindingMdibVersion")} / BindingEndTime={st.get("BindingEndTime")}'))
                 if was == now:
                     continue
                 counters['changes'] += 1
